@@ -7,6 +7,7 @@
   (ℚ, ℝ, finite floats). Helper lemmas: `Proofs/Params.lean`.
 -/
 import SkyllhModel.Model.Params
+import SkyllhModel.Model.ParamsR7
 import SkyllhModel.Proofs.Params
 import SkyllhModel.Proofs.ParamsHeap
 import SkyllhModel.Generated.C04
@@ -2336,3 +2337,317 @@ theorem c04_shared_objects_partial (ops : List (WOp V)) (hns : ∀ op ∈ ops, C
 example : (World.run (World.empty : World Int)
     [.add 0 ⟨"a", 1, some 0, some 2, none⟩ false, .copy 0, .fix 1 [("a", .cur)]]).sets.map
       (fun r => (r.ids, r.st.fixedMask)) = [([0], [false]), ([1], [true])] := by decide
+
+
+/-! ## Round 7: `Parameter.__eq__`, the `TypeError` branch of `get_src_model_idxs`, the mapper's delegating
+views, defaults of the public signatures (Model/ParamsR7.lean) -/
+
+namespace C04
+
+theorem neV_eq_true {a b : V} : neV a b = true ↔ a ≠ b := by
+  rw [← Bool.not_eq_false, neV_eq_false]
+
+theorem neOptV_eq_false {a b : Option V} : neOptV a b = false ↔ a = b := by
+  cases a <;> cases b <;> simp [neOptV, neV_eq_false]
+
+theorem neOptV_eq_true {a b : Option V} : neOptV a b = true ↔ a ≠ b := by
+  rw [← Bool.not_eq_false, neOptV_eq_false]
+
+end C04
+
+/-- **`Parameter.__eq__` in closed form**: `p == q` iff name, value and kind agree and — for a *floating*
+`p` — also initial value and both bounds. (The bounds a fixed parameter may carry are not compared.) -/
+theorem c04_param_eq_iff (p q : Param V) :
+    p.eq q = true ↔ p.name = q.name ∧ p.value = q.value ∧ p.isfixed = q.isfixed ∧
+      (p.isfixed = false → p.initial = q.initial ∧ p.valmin = q.valmin ∧ p.valmax = q.valmax) := by
+  unfold Param.eq
+  by_cases h1 : p.name = q.name
+  · by_cases h2 : p.value = q.value
+    · by_cases h3 : p.isfixed = q.isfixed
+      · have e1 : (p.name != q.name) = false := by simp [h1]
+        have e2 : neV p.value q.value = false := neV_eq_false.2 h2
+        have e3 : (p.isfixed != q.isfixed) = false := by simp [h3]
+        simp only [e1, e2, e3, Bool.or_false, Bool.false_eq_true, if_false]
+        cases hf : p.isfixed with
+        | true => simp [h1, h2, ← h3, hf]
+        | false =>
+          simp only [Bool.not_false, if_true]
+          by_cases h4 : p.initial = q.initial
+          · by_cases h5 : p.valmin = q.valmin
+            · by_cases h6 : p.valmax = q.valmax
+              · simp [h1, h2, ← h3, hf, h4, neV_eq_false, C04.neOptV_eq_false, h5, h6]
+              · simp [h6, C04.neOptV_eq_true.2 h6]
+            · simp [h5, C04.neOptV_eq_true.2 h5]
+          · simp [h4, C04.neV_eq_true.2 h4]
+      · have e3 : (p.isfixed != q.isfixed) = true := by simp [h3]
+        simp [e3, h3]
+    · simp [C04.neV_eq_true.2 h2, h2]
+  · have e1 : (p.name != q.name) = true := by simp [h1]
+    simp [e1, h1]
+
+/-- `==` on `Parameter` objects is reflexive, symmetric and transitive (for non-NaN values) -/
+theorem c04_param_eq_equiv :
+    (∀ p : Param V, p.eq p = true) ∧ (∀ p q : Param V, p.eq q = q.eq p) ∧
+    (∀ p q r : Param V, p.eq q = true → q.eq r = true → p.eq r = true) := by
+  refine ⟨fun p => (c04_param_eq_iff p p).2 ⟨rfl, rfl, rfl, fun _ => ⟨rfl, rfl, rfl⟩⟩, ?_, ?_⟩
+  · intro p q
+    rw [Bool.eq_iff_iff, c04_param_eq_iff, c04_param_eq_iff]
+    constructor
+    · rintro ⟨a, b, c, d⟩
+      exact ⟨a.symm, b.symm, c.symm, fun h => by
+        obtain ⟨x, y, z⟩ := d (c.trans h); exact ⟨x.symm, y.symm, z.symm⟩⟩
+    · rintro ⟨a, b, c, d⟩
+      exact ⟨a.symm, b.symm, c.symm, fun h => by
+        obtain ⟨x, y, z⟩ := d (c.trans h); exact ⟨x.symm, y.symm, z.symm⟩⟩
+  · intro p q r hpq hqr
+    obtain ⟨a, b, c, d⟩ := (c04_param_eq_iff p q).1 hpq
+    obtain ⟨a', b', c', d'⟩ := (c04_param_eq_iff q r).1 hqr
+    refine (c04_param_eq_iff p r).2 ⟨a.trans a', b.trans b', c.trans c', fun h => ?_⟩
+    obtain ⟨x, y, z⟩ := d h
+    obtain ⟨x', y', z'⟩ := d' (c.symm.trans h)
+    exact ⟨x.trans x', y.trans y', z.trans z'⟩
+
+/-- **equal parameters are interchangeable for the value setter**: two well-formed `Parameter` objects that
+compare equal accept exactly the same values (fixed: the common value; floating: the common bounds) -/
+theorem c04_param_eq_same_setter (p q : Param V) (hp : ParamWF p) (hq : ParamWF q) (h : p.eq q = true) (x : V) :
+    p.accepts x = q.accepts x := by
+  obtain ⟨_, hv, hfx, hfl⟩ := (c04_param_eq_iff p q).1 h
+  rw [c04_setter_accepts_iff p hp, c04_setter_accepts_iff q hq]
+  unfold Spec.accepts
+  cases hf : p.isfixed with
+  | true => rw [← hfx, hf]; simp [hv]
+  | false =>
+    obtain ⟨_, h5, h6⟩ := hfl hf
+    rw [← hfx, hf, h5, h6]
+    simp
+
+/-- for well-formed *floating* parameters `==` is equality of all six attributes -/
+theorem c04_param_eq_floating_struct (p q : Param V) (hf : p.isfixed = false) : p.eq q = true ↔ p = q := by
+  rw [c04_param_eq_iff]
+  constructor
+  · rintro ⟨a, b, c, d⟩
+    obtain ⟨x, y, z⟩ := d hf
+    cases p; cases q; simp_all
+  · rintro rfl; exact ⟨rfl, rfl, rfl, fun _ => ⟨rfl, rfl, rfl⟩⟩
+
+/-- … while two *fixed* parameters compare equal although they differ (bounds are ignored): the docstring's
+"equal if their property values are equal" holds in one direction only -/
+theorem c04_param_eq_fixed_ignores_bounds :
+    ∃ p q : Param Int, ParamWF p ∧ ParamWF q ∧ p.eq q = true ∧ p ≠ q :=
+  ⟨⟨"a", 1, true, some 0, some 2, 1⟩, ⟨"a", 1, true, none, none, 1⟩,
+   ⟨fun _ => rfl, fun h => by cases h⟩, ⟨fun _ => rfl, fun h => by cases h⟩, by decide, by decide⟩
+
+/-- in a coherent set (hence after any history, `c04_refine`) no two entries compare equal:
+`p_i == p_j` ⇒ `i = j` (names are distinct) -/
+theorem c04_param_eq_in_set {s : PSet V} (hs : Coherent s) (i j : Nat) (p q : Param V)
+    (hi : s.params[i]? = some p) (hj : s.params[j]? = some q) (h : p.eq q = true) : i = j := by
+  have hn := ((c04_param_eq_iff p q).1 h).1
+  have hnd := hs.nodup
+  have h1 : (s.params.map (·.name))[i]? = some p.name := by simp [hi]
+  have h2 : (s.params.map (·.name))[j]? = some p.name := by simp [hj, hn]
+  obtain ⟨hi', e1⟩ := List.getElem?_eq_some_iff.1 h1
+  obtain ⟨hj', e2⟩ := List.getElem?_eq_some_iff.1 h2
+  exact (List.Nodup.getElem_inj_iff hnd).1 (e1.trans e2.symm)
+
+example : (⟨"a", 1, false, some 0, some 2, 1⟩ : Param Int).eq ⟨"a", 1, false, some 0, some 3, 1⟩ = false := by decide
+example : (⟨"a", 1, false, some 0, some 2, 2⟩ : Param Int).eq ⟨"a", 2, false, some 0, some 2, 2⟩ = false := by decide
+example : (⟨"a", 1, false, some 0, some 2, 1⟩ : Param Int).eq ⟨"a", 1, false, some 0, some 2, 1⟩ = true := by decide
+
+/-- **`get_src_model_idxs(sources=…)` with its argument check**: the call is accepted iff every model of the
+mapper named in `sources` is a source model; then the result is the one of `c04_src_model_idxs`
+(membership ⇔ source ∧ selected) — a non-source model is never silently dropped or returned -/
+theorem c04_src_model_idxs_checked (s : PMM V) (sel : Option (List Nat)) :
+    (s.srcModelIdxsChecked sel = .ok (s.srcModelIdxs sel) ↔
+      ∀ l, sel = some l → ∀ i ∈ l, i < s.nModels → s.isSourceAt i = true) ∧
+    (s.srcModelIdxsChecked sel = .error .typeError ↔
+      ∃ l, sel = some l ∧ ∃ i ∈ l, i < s.nModels ∧ s.isSourceAt i = false) := by
+  have key : s.sourcesTypeOk sel = true ↔
+      ∀ l, sel = some l → ∀ i ∈ l, i < s.nModels → s.isSourceAt i = true := by
+    cases sel with
+    | none => simp [PMM.sourcesTypeOk]
+    | some l =>
+      simp only [PMM.sourcesTypeOk, List.all_eq_true, Bool.or_eq_true, decide_eq_true_eq, Option.some.injEq]
+      constructor
+      · intro h l' hl i hi hlt
+        subst hl
+        rcases h i hi with h1 | h1
+        · omega
+        · exact h1
+      · intro h i hi
+        by_cases hlt : i < s.nModels
+        · exact Or.inr (h l rfl i hi hlt)
+        · exact Or.inl (by omega)
+  unfold PMM.srcModelIdxsChecked
+  cases hb : s.sourcesTypeOk sel with
+  | true =>
+    have hk := key.1 hb
+    simp only [if_true, true_iff, reduceCtorEq, false_iff, not_exists, not_and]
+    refine ⟨hk, ?_⟩
+    intro l hl i hi hlt
+    simp [hk l hl i hi hlt]
+  | false =>
+    have hk : ¬ ∀ l, sel = some l → ∀ i ∈ l, i < s.nModels → s.isSourceAt i = true := fun h => by
+      have := key.2 h; rw [hb] at this; cases this
+    simp only [Bool.false_eq_true, if_false, reduceCtorEq, false_iff, true_iff]
+    refine ⟨hk, ?_⟩
+    push Not at hk
+    obtain ⟨l, hl, i, hi, hlt, hne⟩ := hk
+    exact ⟨l, hl, i, hi, hlt, by simpa using hne⟩
+
+/-- the record array with the argument check: accepted selection ⇒ the table of `c04_src_recarray`
+(`Spec.cell` rows, one per selected source); a non-source model in `sources` ⇒ `TypeError`, after the
+length check of the value vector -/
+theorem c04_src_recarray_checked (s : PMM V) (g : List V) (sel : Option (List Nat)) :
+    (s.sourcesTypeOk sel = true → s.srcParamsRecarrayChecked g sel = s.srcParamsRecarray g sel) ∧
+    (s.sourcesTypeOk sel = false → g.length = s.gps.floatNames.length →
+      s.srcParamsRecarrayChecked g sel = .error .typeError) ∧
+    (g.length ≠ s.gps.floatNames.length → s.srcParamsRecarrayChecked g sel = .error .valueError) := by
+  unfold PMM.srcParamsRecarrayChecked PMM.srcParamsRecarray PMM.srcModelIdxsChecked
+  refine ⟨fun h => ?_, fun h hg => ?_, fun hg => ?_⟩
+  · rw [if_pos h]
+    by_cases hg : g.length ≠ s.gps.floatNames.length
+    · rw [if_pos hg, if_pos hg]
+    · rw [if_neg hg, if_neg hg]
+      cases s.srcRows g s.srcFieldNames (s.srcModelIdxs sel) <;> rfl
+  · rw [if_neg (by simpa using hg), if_neg (by simp [h])]
+  · rw [if_pos hg]
+
+example : (PMM.create [("d", false), ("s", true)] : PMM Int).srcModelIdxsChecked (some [1, 0]) = .error .typeError := by decide
+example : (PMM.create [("d", false), ("s", true)] : PMM Int).srcModelIdxsChecked (some [1, 5]) = .ok [1] := by decide
+
+/-- **the mapper's counters and `get_gflp_idx` describe the same state as the table**: in a well-formed mapper
+(`c04_pmm_refine`) the four counters are the lengths of the model list, the parameter list and its fixed /
+floating parts; `get_gflp_idx(name)` is the position of `name` among the floating parameters in declaration
+order (`KeyError` iff there is no such floating parameter) — the `k` of the `+(k+1)` entry of `c04_src_table`;
+`create_global_floating_params_dict` pairs the floating names with the supplied vector -/
+theorem c04_mapper_counts_gflp (s : PMM V) (hw : C04.PMMWF s) (g : List V) :
+    s.counts = (s.models.length, s.gps.params.length, (Spec.fixedOf s.gps.params).length,
+      (Spec.floatOf s.gps.params).length) ∧
+    (∀ n, s.gflpIdx n = match idxOf? n ((Spec.floatOf s.gps.params).map (·.name)) with
+      | some k => .ok k
+      | none => .error .keyError) ∧
+    s.globalFloatingParamsDict g = ((Spec.floatOf s.gps.params).map (·.name)).zip g := by
+  have hc := hw.gps.caches
+  refine ⟨?_, fun n => ?_, ?_⟩
+  · unfold PMM.counts Spec.fixedOf Spec.floatOf
+    rw [hc.fixedNames, hc.floatNames, List.length_map, List.length_map]
+  · unfold PMM.gflpIdx Spec.floatOf
+    rw [hc.floatIdx n, hc.floatNames]
+    generalize idxOf? n _ = o
+    cases o <;> rfl
+  · unfold PMM.globalFloatingParamsDict Spec.floatOf
+    rw [hc.floatNames]
+
+/-! ### signed indices -/
+
+/-- **signed indices**: `a[i]` on an axis of length `n` is defined exactly for `-n ≤ i < n`; it denotes position
+`i` for `i ≥ 0` and position `i + n` for `i < 0` -/
+theorem c04_signed_index (n : Nat) (i : Int) :
+    (PMM.normIdx n i = none ↔ i < -(n : Int) ∨ (n : Int) ≤ i) ∧
+    (∀ k, PMM.normIdx n i = some k ↔ k < n ∧ ((k : Int) = i ∨ (k : Int) = i + n)) := by
+  unfold PMM.normIdx
+  refine ⟨?_, fun k => ?_⟩
+  · split_ifs <;> simp <;> omega
+  · split_ifs <;> simp <;> omega
+
+omit [LinearOrder V] in
+/-- `create_model_params_dict(model=<int>)` has an explicit range check: every index outside `[0, n_models)` —
+negative ones included — is an `IndexError`; inside the range it is the table row of `c04_model_dict` -/
+theorem c04_model_dict_int (s : PMM V) (g : List V) (i : Int) :
+    (i < 0 ∨ (s.models.length : Int) ≤ i → s.modelParamsDictInt g i = .error .indexError) ∧
+    (∀ k : Nat, k < s.models.length → s.modelParamsDictInt g (k : Int) = s.modelParamsDict g k) := by
+  unfold PMM.modelParamsDictInt
+  refine ⟨fun h => by rw [if_pos h], fun k hk => ?_⟩
+  rw [if_neg (by omega)]
+  simp
+
+omit [LinearOrder V] in
+/-- **the signed `int32` index array of `create_src_params_recarray`**: when every entry lies in `[-n, n)` the
+rows are those of the wrapped (non-negative) model indices (`c04_src_recarray_idx_eq`), in the given order, and
+the `:model_idx` column shows the entries as given (a negative entry stays negative) -/
+theorem c04_src_recarray_idx_signed (s : PMM V) (g : List V) (fields : List String) (idxs : List Int) (ks : List Nat)
+    (h : List.Forall₂ (fun i k => PMM.normIdx s.mpn.length i = some k) idxs ks) :
+    s.srcRowsIdxInt g fields idxs =
+      PSet.exMap (fun rows => (idxs.zip rows).map (fun ir => (ir.1, ir.2.2))) (s.srcRowsIdx g fields ks) := by
+  induction h with
+  | nil => rfl
+  | @cons i k is ks' hik _ ih =>
+    unfold PMM.srcRowsIdxInt PMM.srcRowsIdx
+    rw [hik]
+    dsimp only
+    cases hrow : s.mpn[k]? with
+    | none => rfl
+    | some row =>
+      dsimp only
+      by_cases hall : ((row.filterMap id).all fun a => fields.contains a) = true
+      · rw [if_pos hall, if_pos hall, ih]
+        cases s.srcRow g fields k <;> cases s.srcRowsIdx g fields ks' <;> rfl
+      · rw [if_neg hall, if_neg hall]; rfl
+
+omit [LinearOrder V] in
+/-- an entry outside `[-n_models, n_models)` makes the call fail -/
+theorem c04_src_recarray_idx_signed_rejects (s : PMM V) (g : List V) (fields : List String) (idxs : List Int)
+    (h : ∃ i ∈ idxs, i < -(s.mpn.length : Int) ∨ (s.mpn.length : Int) ≤ i) :
+    ∃ e, s.srcRowsIdxInt g fields idxs = .error e := by
+  induction idxs with
+  | nil => obtain ⟨i, hi, _⟩ := h; cases hi
+  | cons j js ih =>
+    unfold PMM.srcRowsIdxInt
+    cases hn : PMM.normIdx s.mpn.length j with
+    | none => exact ⟨_, rfl⟩
+    | some k =>
+      have hrest : ∃ i ∈ js, i < -(s.mpn.length : Int) ∨ (s.mpn.length : Int) ≤ i := by
+        obtain ⟨i, hi, hout⟩ := h
+        rcases List.mem_cons.1 hi with rfl | hi'
+        · have := (c04_signed_index s.mpn.length i).1.2 hout
+          rw [hn] at this; cases this
+        · exact ⟨i, hi', hout⟩
+      obtain ⟨e, he⟩ := ih hrest
+      simp only
+      cases s.mpn[k]? with
+      | none => exact ⟨_, rfl⟩
+      | some row =>
+        simp only
+        split_ifs
+        · rw [he]
+          cases s.srcRow g fields k with
+          | error e' => exact ⟨_, rfl⟩
+          | ok r => exact ⟨_, rfl⟩
+        · exact ⟨_, rfl⟩
+
+omit [LinearOrder V] in
+/-- `get_model_param_name(i, j)` is plain numpy indexing: defined iff both indices are in their signed ranges;
+the result is the alias-matrix entry at the wrapped position -/
+theorem c04_get_model_param_name (s : PMM V) (hw : ∀ row ∈ s.mpn, row.length = s.gps.params.length) (mi gi : Int) :
+    (∀ a, s.getModelParamName mi gi = .ok a ↔
+      ∃ i j row, PMM.normIdx s.mpn.length mi = some i ∧ PMM.normIdx s.gps.params.length gi = some j ∧
+        s.mpn[i]? = some row ∧ a = row[j]?.join) := by
+  intro a
+  unfold PMM.getModelParamName
+  cases hi : PMM.normIdx s.mpn.length mi with
+  | none => simp
+  | some i =>
+    have hlt := ((c04_signed_index _ _).2 i).1 hi |>.1
+    have hrow : s.mpn[i]? = some s.mpn[i] := List.getElem?_eq_getElem hlt
+    dsimp only
+    rw [hrow]
+    dsimp only
+    have hlen := hw _ (List.getElem_mem hlt)
+    rw [hlen]
+    cases hj : PMM.normIdx s.gps.params.length gi with
+    | none => simp
+    | some j =>
+      simp only [Except.ok.injEq, Option.some.injEq]
+      constructor
+      · intro h; exact ⟨i, j, _, rfl, rfl, hrow, h.symm⟩
+      · rintro ⟨i', j', row, h1, h2, h3, h4⟩
+        subst h1; subst h2
+        rw [hrow] at h3
+        cases h3
+        exact h4.symm
+
+example : PMM.normIdx 3 (-1) = some 2 ∧ PMM.normIdx 3 (-3) = some 0 ∧ PMM.normIdx 3 (-4) = none ∧ PMM.normIdx 3 3 = none := by decide
+
+/-- defaults of the public signatures read from the current source = the ones the protocol and the model
+assume (`ParameterSet(params)` / `union` add at the back; a left-out argument is `None`) -/
+theorem c04_defaults_for_current_source : Gen.C04.defaults = Defaults.assumed := by decide
